@@ -19,8 +19,17 @@ Inductive hop : Type :=
 | HCancel (w : nat).
 
 Inductive C32_case : Type :=
-| CDirect (nc nch : nat) (ops : list dop) (out : list (list Z))
-| CWait (nc nw : nat) (ops : list hop) (out : list (list Z)).
+| CDirect (nc nch : nat) (ops : list dop) (out : list Z)
+| CWait (nc nw : nat) (ops : list hop) (out : list Z).
+
+(* the observations of one step are written as one number: 1 followed by the
+   base-65536 digits (value + 4), most significant first (keeps the case files small) *)
+Fixpoint unpack_aux (fuel : nat) (z : Z) (acc : list Z) : list Z :=
+  match fuel with
+  | O => acc
+  | S f => if z <=? 1 then acc else unpack_aux f (z / 65536) ((z mod 65536 - 4) :: acc)
+  end.
+Definition unpack (z : Z) : list Z := unpack_aux 64 z [].
 
 Definition b2z (b : bool) : Z := if b then 1 else 0.
 
@@ -338,14 +347,14 @@ Definition C32_fx : bool := false.
 
 Definition C32_model_ok (c : C32_case) : bool :=
   match c with
-  | CDirect nc nch ops out => zss_eqb (d_trace C32_fx nc nch (d_init nc nch) ops) out
-  | CWait nc nw ops out => zss_eqb (w_trace C32_fx nc nw (w_init nc nw) ops) out
+  | CDirect nc nch ops out => zss_eqb (d_trace C32_fx nc nch (d_init nc nch) ops) (map unpack out)
+  | CWait nc nw ops out => zss_eqb (w_trace C32_fx nc nw (w_init nc nw) ops) (map unpack out)
   end.
 
 Definition C32_oracle_ok (c : C32_case) : bool :=
   match c with
-  | CDirect nc nch ops out => o_run nc nch (o_init nc nch) ops out
-  | CWait nc nw ops out => ws_run nc nw (ws_init nc nw) ops out
+  | CDirect nc nch ops out => o_run nc nch (o_init nc nch) ops (map unpack out)
+  | CWait nc nw ops out => ws_run nc nw (ws_init nc nw) ops (map unpack out)
   end.
 
 (* class 1: the history contains a set_enabled_statuses that makes the trigger
